@@ -3224,6 +3224,10 @@ func (bc *Blockchain) isTxStillRelevant(t *transaction.Transaction, txpool *memp
 	if t.ValidUntilBlock <= curheight {
 		return false
 	}
+	// The validity window can be shrunk by the committee.
+	if t.ValidUntilBlock > curheight+bc.GetMaxValidUntilBlockIncrement() {
+		return false
+	}
 	if txpool == nil {
 		if bc.dao.HasTransaction(t.Hash(), t.Signers, curheight, bc.GetMaxTraceableBlocks()) != nil {
 			return false
